@@ -284,6 +284,11 @@ def forward_saves_input_state(n):
             want = psi0 if not env.mutant("expects_scaled_state") else 2.0 * psi0
             if any(flags[:4]):
                 env.check_eq(ts[4], want, f"the state saved for the backward pass is the state the step started from (n={n}, any norm)")
+            if any(flags):
+                # while gradients are tracked the input tensor belongs to the autograd graph (it is the previous
+                # step's output; observables at that evaluation time were computed from it): modifying it in
+                # place makes every later backward() fail ("modified by an inplace operation")
+                env.check_eq(psi, psi0, f"forward leaves its input state tensor untouched while gradients are tracked (n={n})")
             env.check_eq(ts[0], omega, "saved amplitudes are the inputs")
             env.check_eq(ts[1], delta, "saved detunings are the inputs")
             env.check_eq(ts[2], phi, "saved phases are the inputs")
@@ -401,8 +406,11 @@ def backward_assembly(n, all_flag_sets):
             return list(Vs), dS, list(Vg)
 
         def fake_krylov_exp(op, v, *a, **k):
-            rec["ke"].append((op, v))
+            rec["ke"].append((op, v.clone()))
+            v *= 0  # "the input tensor object v becomes invalid" (the real one normalises it in place)
             return gin
+
+        gout0 = gout.clone()
 
         saved = (te.double_krylov, te.krylov_exp)
         te.double_krylov, te.krylov_exp = fake_double_krylov, fake_krylov_exp
@@ -446,9 +454,12 @@ def backward_assembly(n, all_flag_sets):
             env.check(len(rec["ke"]) == 1, "the state gradient is propagated with one exponential")
             if rec["ke"]:
                 op, v = rec["ke"][0]
-                env.check_eq(v, gout, "the exponential acts on the incoming gradient")
+                env.check_eq(v, gout0, "the exponential acts on the incoming gradient")
                 env.check_eq(op(probe.clone()), (1j * dt) * (Hd @ probe), "the state gradient is propagated with exp(+i dt H)")
                 env.check(out[5] is gin, "grad_state_in is the result of that exponential")
+            # the incoming gradient is autograd's own buffer (possibly an expanded, stride-0 tensor after .sum()):
+            # handing it to a routine that destroys its argument corrupts it or raises
+            env.check_eq(gout, gout0, "backward leaves the incoming gradient tensor untouched")
 
     return fn
 
